@@ -29,6 +29,9 @@ type memNode struct {
 // Assert Store implementation
 var _ store.Store = &memoryStore{}
 
+// Balances are handed out by value, which shares the big.Int digits with the
+// stored balance. So stored amounts are never modified in place, they are
+// replaced by a freshly allocated sum.
 type memoryStore struct {
 	mu sync.Mutex
 
@@ -98,11 +101,11 @@ func (s *memoryStore) AddNodeBalance(nodeID store.NodeID, credit *big.Int) error
 	account, ok := s.accounts[nodeID]
 	if ok {
 		balance := s.balances[account]
-		balance.Credit.Add(&balance.Credit, credit)
+		balance.Credit = *new(big.Int).Add(&balance.Credit, credit)
 		s.balances[account] = balance
 	} else {
 		balance := s.trials[nodeID]
-		balance.Credit.Add(&balance.Credit, credit)
+		balance.Credit = *new(big.Int).Add(&balance.Credit, credit)
 		s.trials[nodeID] = balance
 	}
 	return nil
@@ -121,7 +124,7 @@ func (s *memoryStore) AddAccountBalance(account store.Account, credit *big.Int) 
 	defer s.mu.Unlock()
 
 	balance := s.balances[account]
-	balance.Credit.Add(&balance.Credit, credit)
+	balance.Credit = *new(big.Int).Add(&balance.Credit, credit)
 	balance.Account = account
 	s.balances[account] = balance
 	return nil
@@ -143,7 +146,7 @@ func (s *memoryStore) AddAccountNode(account store.Account, nodeID store.NodeID)
 	balance := s.balances[account]
 	s.accounts[nodeID] = account
 	trialBalance := s.trials[nodeID]
-	balance.Credit.Add(&balance.Credit, &trialBalance.Credit)
+	balance.Credit = *new(big.Int).Add(&balance.Credit, &trialBalance.Credit)
 	balance.Account = account
 	delete(s.trials, nodeID)
 	s.balances[account] = balance
